@@ -228,6 +228,7 @@ TopCorruptCases ==
           x \in Generic(BundleBase, "bundle") \cup Drop(BundleBase, {"require_mode"}) \cup Inner(BundleBase, 1, "mode")
                 \cup SetValue(BundleBase, "excludes", L(<<"@pkg/**", "[">>), "invalid-glob")
                 \cup SetValue(BundleBase, "require_mode", S("roblox"), "invalid-value")
+                \cup UNION {SetValue(BundleBase, "modules_identifier", S(v), "invalid-identifier") : v \in {"end", "not valid", "1x", ""}}
                 \cup SetValue(BundleBase, "require_mode", O(<<"name", "str", "luau", "module_folder_name", "str", "index">>), "unknown-key")
                 \cup SetValue(BundleBase, "require_mode", O(<<"name", "str", "luau", "aliases", "map", "@a=./x", "sources", "map", "@b=./y">>), "duplicate-key")}
 
